@@ -27,6 +27,7 @@ Unavailable(mn, ops, flags) ==
   \/ "NoEicall" \in flags /\ mn = "eicall"
   \/ "NoEijmp"  \in flags /\ mn = "eijmp"
   \/ "NoSpm"    \in flags /\ mn = "spm"
+  \/ "NoEspm"   \in flags /\ mn = "spm" /\ Len(ops) > 0                          \* SPM Z+ is the ESPM instruction
   \/ "NoLpm"    \in flags /\ mn = "lpm"
   \/ "NoLpmX"   \in flags /\ mn = "lpm" /\ Len(ops) > 0
   \/ "NoElpm"   \in flags /\ mn = "elpm"
